@@ -28,10 +28,15 @@ func main() {
 	case "list":
 		os.Exit(cmdList(os.Args[2:]))
 	default:
+		if f, ok := extraCommands[os.Args[1]]; ok {
+			os.Exit(f(os.Args[2:]))
+		}
 		fmt.Fprintln(os.Stderr, "unknown command", os.Args[1])
 		os.Exit(2)
 	}
 }
+
+var extraCommands = map[string]func([]string) int{}
 
 func cmdList(args []string) int {
 	fs := flag.NewFlagSet("list", flag.ExitOnError)
@@ -471,4 +476,27 @@ func truncate(s string, n int) string {
 		return s[:n] + "…"
 	}
 	return s
+}
+
+func init() {
+	// "govc funcs <regexp>" lists SSA function names with their captured variables (to address anonymous functions)
+	extraCommands["funcs"] = func(args []string) int {
+		w, err := engine.Load("/repo", "verif")
+		if err != nil {
+			fmt.Fprintln(os.Stderr, err)
+			return 2
+		}
+		re := regexp.MustCompile(args[0])
+		for _, n := range w.FuncNames() {
+			if re.MatchString(n) {
+				fn := w.FuncByName(n)
+				var fv []string
+				for _, v := range fn.FreeVars {
+					fv = append(fv, v.Name()+" "+v.Type().String())
+				}
+				fmt.Printf("%s  free=[%s] sig=%s\n", n, strings.Join(fv, "; "), fn.Signature)
+			}
+		}
+		return 0
+	}
 }
